@@ -131,16 +131,32 @@ def ival(n):
 # --------------------------------------------------------------------------- device side
 class ParamDev(sv.ParamService):
     """simdev.ParamService + [fw param_logic.c paramGetDefaultValue]: read-only parameters have
-    no default value (ENOENT)."""
+    no default value (ENOENT); + scripted value-changed notification emitted just before the answer
+    to the extended-type request of a parameter (connect phase); records the extended types answered."""
+
+    def __init__(self, table, connect_ntf=None):
+        super().__init__(table)
+        self.connect_ntf = dict(connect_ntf or {})      # index -> new value bytes
+        self.ext_answers = {}
 
     def handle(self, pk):
         d = bytes(pk.data)
+        ents = self.table.entries
         if pk.channel == 3 and len(d) >= 3 and d[0] == 6:
             i = d[1] | (d[2] << 8)
-            ents = self.table.entries
             if i < len(ents) and ents[i]['type'] & 0x40:
                 self.requests.append((pk.channel, d))
                 return [sd.reply(sv.PORT_PARAM, 3, d[:3] + bytes([2]))]
+        if pk.channel == 3 and len(d) >= 3 and d[0] == 2:
+            i = d[1] | (d[2] << 8)
+            pre = []
+            if i in self.connect_ntf:
+                ents[i]['value'] = bytes(self.connect_ntf.pop(i))
+                pre = [self.notify(i)]
+            rep = super().handle(pk)
+            if rep:
+                self.ext_answers[i] = bytes(rep[0].data)[3]
+            return pre + rep
         return super().handle(pk)
 
 
@@ -267,7 +283,8 @@ def execute(sc, mutant=None, want_projection=False):
         dev = ManualDevice({
             sv.PORT_LINK: sv.LinkService(), sv.PORT_PLATFORM: sv.PlatformService(10),
             sv.PORT_LOG: sv.LogService(sv.TocTable([{'group': b'pm', 'name': b'vbat', 'type': 7}], 0x11111111)),
-            sv.PORT_PARAM: ParamDev(sv.TocTable(make_entries(params), 0x22220000 + (sc.get('crc', 0) & 0xFFFF))),
+            sv.PORT_PARAM: ParamDev(sv.TocTable(make_entries(params), 0x22220000 + (sc.get('crc', 0) & 0xFFFF)),
+                                    {p - 1: v for (p, v) in sc.get('connect_ntf', [])}),
             sv.PORT_MEM: sv.MemoryService([])}, mode='sync')
         ents = dev.services[sv.PORT_PARAM].table.entries
         w.add('0', dev)
@@ -358,6 +375,9 @@ def execute(sc, mutant=None, want_projection=False):
                 g, n = pname(params, ref).split('.')
                 cf.param.add_update_callback(group=g, name=n, cb=make_upd_cb(cid))
         base_cbs = len(cf.incoming.cb)
+        init_dev = [list(e['value']) for e in ents]          # what the device holds now (= what was fetched)
+        for i in sorted(dev.services[sv.PORT_PARAM].ext_answers):
+            ev.append({'e': 'ext', 'p': i + 1, 'dev': dev.services[sv.PORT_PARAM].ext_answers[i], 'lib': persistent_seen[i]})
 
         # ---- user threads
         ops = [list(x) for x in sc['users']]
@@ -579,13 +599,14 @@ def execute(sc, mutant=None, want_projection=False):
                   'threads': [(t['name'], t['status'], t.get('op')) for t in rep if t['status'] not in ('finished',)]}
     cfg = {'np': np_, 'type': [p['type'] for p in params], 'ro': [bool(p['ro']) for p in params],
            'pers': [bool(p['pers']) for p in params], 'group': [p['group'] for p in params],
-           'init': [list(p['init']) for p in params],
+           'init': init_dev,
            'updcbs': [{'id': c[0], 'scope': c[1], 'ref': c[2]} for c in sc['updcbs']],
            'default': [list(p['default']) for p in params],
            'stored0': [list(p['stored']) if p['stored'] else [] for p in params]}
     # binding sanity of the set-up itself (machinery, not verdict): the connect-time cache and the
     # persistent flags must be what the device table says
     detail['init_cache'] = init_cache
+    detail['connect_ntf'] = sc.get('connect_ntf')
     detail['persistent_seen'] = persistent_seen
     out = {'cfg': cfg, 'ev': ev, 'detail': detail}
     if want_projection:
@@ -707,8 +728,13 @@ def gen_scenario(rng, big=False):
         p = rng.randint(1, len(params))
         notifs.append([p, rand_typed(params[p - 1]['type'], rng)])
     kind = rng.choice(['random', 'random', 'pct', 'pct', 'burst', 'fifo', 'slowdev', 'slowdev', 'slowdev', 'slowdisp'])
-    return {'params': params, 'updcbs': rand_updcbs(rng, params), 'users': users, 'notifs': notifs,
-            'policy': [kind, rng.randrange(1 << 30)], 'crc': rng.randrange(1 << 16)}
+    sc = {'params': params, 'updcbs': rand_updcbs(rng, params), 'users': users, 'notifs': notifs,
+          'policy': [kind, rng.randrange(1 << 30)], 'crc': rng.randrange(1 << 16)}
+    if rng.random() < 0.06:
+        # the firmware changes a value by itself while the client is still connecting
+        q = rng.choice([i + 1 for i, p in enumerate(params) if p['pers']])
+        sc['connect_ntf'] = [[q, rand_typed(params[q - 1]['type'], rng)]]
+    return sc
 
 
 def codec_scenarios(rng):
@@ -780,6 +806,21 @@ def mutant_scenarios(rng, n):
                     'users': users, 'notifs': notifs,
                     'policy': [r.choice(['slowdev', 'slowdev', 'burst', 'random', 'pct', 'slowdisp']), r.randrange(1 << 30)],
                     'crc': 99})
+    return out
+
+
+def connect_ntf_scenarios():
+    """a value-changed notification for a persistent parameter arrives while its extended type is being fetched;
+    first value byte 1 (looks like "persistent") and not 1"""
+    out = []
+    for first in (1, 0, 7):
+        for which in (1, 2):
+            params = [P_(0x08, pers=True, init=[6], default=[5]), P_(0x09, pers=True, group=2, init=[7, 0], default=[9, 0]),
+                      P_(0x08, init=[1], default=[1])]
+            val = [first] if which == 1 else [first, 3]
+            out.append({'params': params, 'updcbs': [[1, 'all', 0]],
+                        'users': [[['getstate', which, None], ['read', which, None]]], 'notifs': [], 'policy': ['fifo', 0],
+                        'crc': 5, 'connect_ntf': [[which, val]]})
     return out
 
 
@@ -1034,6 +1075,81 @@ MUTANTS = {
 }
 
 
+def patch_exttype_pre(cf):
+    """emulation of the proposed repair 2: the extended-type fetcher only accepts MISC_GET_EXTENDED_TYPE replies"""
+    from cflib.crazyflie import param as pm
+    orig = pm._ExtendedTypeFetcher._new_packet_cb
+
+    def new_packet_cb(self, pk):
+        if pk.channel == pm.MISC_CHANNEL and pk.data[0] != pm.MISC_GET_EXTENDED_TYPE:
+            return
+        return orig(self, pk)
+    pm._ExtendedTypeFetcher._new_packet_cb = new_packet_cb
+
+    def undo():
+        pm._ExtendedTypeFetcher._new_packet_cb = orig
+    return undo
+
+
+def patch_oneshot_post(cf):
+    """emulation of the proposed repair 1: the reply handler travels with its request and runs exactly when
+    the reply that releases that request is dispatched (no port callbacks registered at call time)"""
+    from cflib.crazyflie import param as pm
+    from cflib.crtp.crtpstack import CRTPPort
+    par, upd = cf.param, cf.param.param_updater
+    st = {'inflight': None}
+    orig_send = cf.send_packet
+
+    def send_packet(pk, *a, **k):
+        if pk.port == CRTPPort.PARAM:
+            st['inflight'] = pk
+        return orig_send(pk, *a, **k)
+    cf.send_packet = send_packet
+    orig_add, orig_remove = cf.add_port_callback, cf.remove_port_callback
+    pending = {'cb': None}
+
+    def add_port_callback(port, cb):
+        if port == CRTPPort.PARAM and getattr(cb, '__name__', '') == 'new_packet_cb':
+            pending['cb'] = cb               # picked up by send_param_misc below (same thread, same call)
+            return
+        return orig_add(port, cb)
+
+    def remove_port_callback(port, cb):
+        if port == CRTPPort.PARAM and getattr(cb, '__name__', '') == 'new_packet_cb':
+            return
+        return orig_remove(port, cb)
+    cf.add_port_callback, cf.remove_port_callback = add_port_callback, remove_port_callback
+    orig_misc = upd.send_param_misc
+
+    def send_param_misc(pk):
+        pk._reply_cb, pending['cb'] = pending['cb'], None
+        return orig_misc(pk)
+    upd.send_param_misc = send_param_misc
+
+    def new_packet_cb(pk):
+        if pk.channel == pm.READ_CHANNEL or pk.channel == pm.WRITE_CHANNEL:
+            release_pattern = pk.data[:2]
+            if pk.channel == pm.READ_CHANNEL:
+                pk.data = pk.data[:2] + pk.data[3:]
+            if upd._lock_pattern == release_pattern:
+                upd.updated_callback(pk)
+                upd._lock_pattern = None
+                try:
+                    upd.wait_lock.release()
+                except Exception:
+                    pass
+        elif pk.channel == pm.MISC_CHANNEL:
+            if pk.data[0] == pm.MISC_VALUE_UPDATED:
+                upd.updated_callback(pk)
+            if upd._lock_pattern == pk.data[:3]:
+                upd._lock_pattern = None
+                cb = getattr(st['inflight'], '_reply_cb', None)
+                upd.wait_lock.release()
+                if cb is not None:
+                    cb(pk)
+    _replace_port_cb(cf, upd._new_packet_cb, new_packet_cb)
+
+
 PRE_CONNECT = {'uint16_as_int16'}       # the others are switched on after the connection is complete
 
 
@@ -1044,7 +1160,12 @@ def _exec_job(job):
     holder = {}
 
     def wrapped(cf, phase):
-        if phase == ('pre' if mutant in PRE_CONNECT else 'post'):
+        if mutant == 'PATCHED':
+            if phase == 'pre':
+                holder['undo'] = patch_exttype_pre(cf)
+            else:
+                patch_oneshot_post(cf)
+        elif phase == ('pre' if mutant in PRE_CONNECT else 'post'):
             holder['undo'] = MUTANTS[mutant](cf)
     try:
         return execute(sc, wrapped if mutant else None)
@@ -1065,24 +1186,80 @@ def run_scenarios(scs, mutant=None):
     return common.pmap(_exec_job, [(sc, mutant) for sc in scs], init=_init, maxtasks=400)
 
 
-def judge(out, traces, label, trace_cfg):
-    for i, t in enumerate(traces):
-        t['id'] = i + 1
-    slim = [{'id': t['id'], 'cfg': t['cfg'], 'ev': t['ev']} for t in traces]
-    verdicts, st = common.validate_traces('ParamProtoTrace.tla', trace_cfg, slim, timeout=3000)
-    out.traces += len(traces)
-    out.states += st['states']
-    out.transitions += st['transitions']
-    out.tlc_runs.append({'config': '%s (%s)' % (trace_cfg, label), 'states': st['states'],
-                         'transitions': st['transitions'], 'wall_s': round(st['wall_s'], 2), 'traces': len(traces)})
+def _batch(args):
+    cfg, path = args
+    r = tlc.run('ParamProtoTrace.tla', cfg, workers=1, timeout=3000, env={'TRACE_FILE': path}, heap='3g')
+    return (r.output, r.distinct, r.generated, r.wall_s, r.violated)
+
+
+def validate_groups(trace_cfg, groups, nproc, cfg_of=None):
+    """One round of TLC runs over several groups of traces (each batch file holds traces of one group
+    only, so TLC's state counts are per group).  -> {group: (verdicts, stats)}"""
+    cfg_of = cfg_of or {}
+    import multiprocessing as mp
+    import shutil
+    d = tlc.scratch_dir('c04traces-')
+    try:
+        jobs, owner = [], []
+        total = sum(len(ts) for ts in groups.values())
+        for g, ts in groups.items():
+            nb = max(1, min(len(ts), round(nproc * len(ts) / max(1, total)) or 1))
+            chunk = max(1, min(4000, (len(ts) + nb - 1) // nb))
+            for i in range(0, len(ts), chunk):
+                path = '%s/%s-%d.json' % (d, g, i // chunk)
+                with open(path, 'w') as f:
+                    json.dump([{'id': t['id'], 'cfg': t['cfg'], 'ev': t['ev']} for t in ts[i:i + chunk]], f,
+                              separators=(',', ':'))
+                jobs.append((cfg_of.get(g, trace_cfg), path))
+                owner.append(g)
+        if len(jobs) == 1:
+            outs = [_batch(jobs[0])]
+        else:
+            with mp.get_context('fork').Pool(min(nproc, len(jobs))) as pool:
+                outs = pool.map(_batch, jobs)
+    finally:
+        shutil.rmtree(d, ignore_errors=True)
+    res = {g: ({}, {'states': 0, 'transitions': 0, 'wall_s': 0.0, 'batches': 0}) for g in groups}
+    for g, (o, distinct, generated, wall, violated) in zip(owner, outs):
+        if violated:
+            raise common.MachineryError('trace spec run reported %s:\n%s' % (violated, o[-3000:]))
+        v, st = res[g]
+        st['states'] += distinct
+        st['transitions'] += generated
+        st['wall_s'] += wall
+        st['batches'] += 1
+        for x in tlc.printed_tuples(o, 'VERDICT'):
+            v[x[0]] = x[1:]
+    for g, ts in groups.items():
+        missing = [t['id'] for t in ts if t['id'] not in res[g][0]]
+        if missing:
+            raise common.MachineryError('%d traces of group %s got no verdict (first ids %s)\n%s' %
+                                        (len(missing), g, missing[:5], outs[0][0][-3000:]))
+    return res
+
+
+def classify(traces, verdicts):
     bad, drift = [], []
     for t in traces:
         clause, at, conf, conf_at = verdicts[t['id']]
+        t['conf'] = bool(conf)
         if clause != 'ok':
             bad.append((t, clause, at))
         elif not conf:
             drift.append((t, conf_at))
     return bad, drift
+
+
+def judge(out, traces, label, trace_cfg, nproc=None):
+    for i, t in enumerate(traces):
+        t['id'] = i + 1
+    verdicts, st = validate_groups(trace_cfg, {'g': traces}, nproc or common.NCPU)['g']
+    out.traces += len(traces)
+    out.states += st['states']
+    out.transitions += st['transitions']
+    out.tlc_runs.append({'config': '%s (%s)' % (trace_cfg, label), 'states': st['states'],
+                         'transitions': st['transitions'], 'wall_s': round(st['wall_s'], 2), 'traces': len(traces)})
+    return classify(traces, verdicts)
 
 
 def signature(t, clause, at):
@@ -1117,6 +1294,8 @@ def signature(t, clause, at):
         o = others[0]
         return '%s/%s/%s' % (clause, 'same-command' if o['k'] == rc['k'] else 'other-command',
                              'same-parameter' if o['p'] == rc['p'] else 'other-parameter')
+    if clause == 'ExtendedTypeNotDelivered':
+        return clause + '/notification-during-connect' if t.get('detail', {}).get('connect_ntf') else clause
     if clause in ('SetEncoding', 'SetAddress', 'OutOfRangeMustRaise', 'OutOfRangeNoTransmission', 'SetNotTransmitted',
                   'RefusedMustRaise', 'RefusedNoTransmission', 'OneRequestPerCall', 'ReadAddress', 'MiscAddress',
                   'RaisedButIssued'):
@@ -1184,26 +1363,62 @@ def _tlc_helper(tier, sim_args, conn):
     try:
         with ThreadPoolExecutor(max_workers=3) as ex:
             fsim = ex.submit(_sim_job, sim_args)
-            res = list(ex.map(_run_tlc_job, _tlc_jobs(tier)))
-            sim = fsim.result()
+            futs = [ex.submit(_run_tlc_job, j) for j in _tlc_jobs(tier)]
+            conn.send(fsim.result())            # first message: the simulated behaviours
+            res = [f.result() for f in futs]
         for (_job, r) in res:
             r.output = r.output[-1500:]
-        conn.send((res, sim))
+        conn.send(res)                          # second message: the exhaustive checks
     except Exception as e:           # reported by the parent as a machinery failure
         conn.send('TLC job failed: %s' % str(e)[-3000:])
     finally:
         conn.close()
 
 
+def corrupted_traces(traces):
+    """binding self-test: copies of recorded traces with one field changed / one event dropped"""
+    def clean(t):      # no two reply callbacks in one dispatch (such traces are rejected anyway)
+        n = 0
+        for e in t['ev']:
+            if e['e'] == 'rx':
+                n = 0
+            elif e['e'] == 'cb':
+                n += 1
+                if n > 1:
+                    return False
+        return not any(e['e'] == 'ext' and e['lib'] != (e['dev'] == 1) for e in t['ev'])
+    good = [t for t in traces if clean(t)]
+    corrupt = []
+    t0 = copy.deepcopy(next(t for t in good if any(e['e'] == 'cb' for e in t['ev'])))
+    t0['ev'].pop(next(i for i, e in enumerate(t0['ev']) if e['e'] == 'cb'))
+    corrupt.append(('drop-reply-callback-event', t0))
+    t1 = copy.deepcopy(next(t for t in good if len({json.dumps(e['data']) for e in t['ev'] if e['e'] == 'tx'}) >= 2))
+    ix = [i for i, e in enumerate(t1['ev']) if e['e'] == 'tx']
+    j = next(k for k in ix[1:] if t1['ev'][k]['data'] != t1['ev'][ix[0]]['data'])
+    t1['ev'][ix[0]], t1['ev'][j] = t1['ev'][j], t1['ev'][ix[0]]
+    corrupt.append(('swap-two-wire-packets', t1))
+    t2 = copy.deepcopy(next(t for t in good if any(e['e'] == 'upd' for e in t['ev'])))
+    e2 = next(e for e in t2['ev'] if e['e'] == 'upd')
+    e2['arg'] = {'k': 'int', 'neg': False, 'mag': [1, 2, 3, 4, 5, 6, 7, 8, 9]}
+    corrupt.append(('change-callback-value', t2))
+    t3 = copy.deepcopy(next(t for t in good if any(e['e'] == 'step' and e['a'] == 'UpdLock' for e in t['ev'])))
+    t3['ev'].pop([i for i, e in enumerate(t3['ev']) if e['e'] == 'step' and e['a'] == 'UpdLock'][0])
+    corrupt.append(('drop-one-step-marker(conformance)', t3))
+    return corrupt
+
+
 def report_violations(out, bad, scs_by_id):
-    for (t, clause, at) in bad:
+    def size(b):
+        sc = scs_by_id[b[0]['id']]
+        return (sum(len(u) for u in sc['users']), len(sc['users']), len(sc['notifs']), len(b[0]['ev']))
+    for (t, clause, at) in sorted(bad, key=size):
         sc = scs_by_id[t['id']]
         rp = dict(sc)
         rp['policy'] = ['script', t['detail']['schedule']]
         lo = max(0, at - 14)
         out.violation(signature(t, clause, at), clause,
-                      {'event_index': at, 'events_before': t['ev'][lo:at], 'users': sc['users'], 'notifs': sc['notifs'],
-                       'types': t['cfg']['type'], 'schedule': t['detail']['schedule']},
+                      {'event_index': at, 'users': sc['users'], 'notifs': sc['notifs'], 'connect_ntf': sc.get('connect_ntf'),
+                       'types': t['cfg']['type'], 'events_before': t['ev'][lo:at], 'schedule': t['detail']['schedule']},
                       {'scenario': rp})
 
 
@@ -1265,7 +1480,7 @@ def main(tier, seed, replay=None):
         pairs = pair_scenarios()
         if tier == 'quick':
             pairs = pairs[:len(pairs) // 3]
-        scs = codec_scenarios(rng) + pairs + msc
+        scs = codec_scenarios(rng) + pairs + msc + connect_ntf_scenarios()
         nrand = 500 if tier == 'quick' else 24000
         for i in range(nrand):
             scs.append(gen_scenario(random.Random(rng.randrange(1 << 60)), big=(i % 4 == 0)))
@@ -1274,7 +1489,39 @@ def main(tier, seed, replay=None):
         # 4a. in-memory mutants on the sensitivity scenarios
         mnames = sorted(MUTANTS)
         mtraces = common.pmap(_exec_job, [(sc, name) for name in mnames for sc in msc], init=_init, maxtasks=400)
+        # 4a'. control: the same machinery on an in-memory emulation of the two proposed repairs must accept
+        csc = pairs[::(3 if tier == 'quick' else 1)] + connect_ntf_scenarios() + \
+            [gen_scenario(random.Random(seed * 7 + i)) for i in range(60 if tier == 'quick' else 1500)]
+        ctraces = common.pmap(_exec_job, [(sc, 'PATCHED') for sc in csc], init=_init, maxtasks=400)
         lap('execute mutants')
+        sim = pipe_r.recv()
+        if isinstance(sim, str):
+            raise tlc.TLCError(sim)
+        lap('wait for simulation')
+        # 2. spec -> code: behaviours of the design spec (the variant the code implements) replayed step by step
+        rs, behs = sim[1]
+        out.add_tlc('%s (-simulate num=%d depth=70)' % (sim_cfg, nsim), rs)
+        reps = common.pmap(_replay_job, behs, init=_init, maxtasks=300)
+        lap('replay behaviours')
+        out.conformance['spec_to_code'] = {
+            'behaviours': len(reps), 'fully_matched': sum(1 for r in reps if r['matched'] == r['steps'] and not r['drift']),
+            'steps': sum(r['steps'] for r in reps), 'steps_matched': sum(r['matched'] for r in reps),
+            'first_mismatches': [r['first'] for r in reps if r['first']][:3]}
+        # 3b/4b. every trace judged by the monitor (TLC, ParamProtoProps) and explained by the design spec;
+        #        the mutants' traces and corrupted traces go through the same round, in files of their own
+        all_traces = [r['trace'] for r in reps] + traces
+        all_scs = [r['sc'] for r in reps] + scs
+        for i, t in enumerate(all_traces):
+            t['id'] = i + 1
+        corrupt = corrupted_traces(all_traces)
+        allm = mtraces + [c[1] for c in corrupt]
+        for i, t in enumerate(allm):
+            t['id'] = i + 1
+        for i, t in enumerate(ctraces):
+            t['id'] = i + 1
+        vr = validate_groups(trace_cfg, {'real': all_traces, 'sens': allm, 'ctrl': ctraces},
+                             10 if tier == 'quick' else common.NCPU, cfg_of={'ctrl': 'TRACE_ParamProto_fixed.cfg'})
+        lap('judge traces (TLC)')
         res = pipe_r.recv()
     finally:
         helper.join(10)
@@ -1283,32 +1530,28 @@ def main(tier, seed, replay=None):
     if isinstance(res, str):
         raise tlc.TLCError(res)
     lap('wait for design-spec TLC')
-    for (job, r) in res[0]:
+    for (job, r) in res:
         if job[0] == 'check':
             out.add_tlc(job[1], r)
         else:
             out.sensitivity['spec:' + job[1][len('MC_ParamProto_bug_'):-4]] = \
                 'refuted (%s) after %d states' % (r.violated, r.distinct)
-    # 2. spec -> code: behaviours of the design spec (the variant the code implements) replayed step by step
-    rs, behs = res[1][1]
-    out.add_tlc('%s (-simulate num=%d depth=70)' % (sim_cfg, nsim), rs)
-    reps = common.pmap(_replay_job, behs, init=_init, maxtasks=300)
-    lap('replay behaviours')
-    out.conformance['spec_to_code'] = {
-        'behaviours': len(reps), 'fully_matched': sum(1 for r in reps if r['matched'] == r['steps'] and not r['drift']),
-        'steps': sum(r['steps'] for r in reps), 'steps_matched': sum(r['matched'] for r in reps),
-        'first_mismatches': [r['first'] for r in reps if r['first']][:3]}
-
-    # 3b. every trace judged by the monitor (TLC, ParamProtoProps) and explained by the design spec
-    all_traces = [r['trace'] for r in reps] + traces
-    all_scs = [r['sc'] for r in reps] + scs
-    bad, drift = judge(out, all_traces, 'real code', trace_cfg)
-    lap('judge traces (TLC)')
+    verdicts, st = vr['real']
+    out.traces += len(all_traces)
+    out.states += st['states']
+    out.transitions += st['transitions']
+    out.tlc_runs.append({'config': '%s (real code)' % trace_cfg, 'states': st['states'], 'transitions': st['transitions'],
+                         'wall_s': round(st['wall_s'], 2), 'traces': len(all_traces)})
+    out.tlc_runs.append({'config': '%s (mutants + corrupted traces)' % trace_cfg, 'states': vr['sens'][1]['states'],
+                         'transitions': vr['sens'][1]['transitions'], 'wall_s': round(vr['sens'][1]['wall_s'], 2),
+                         'traces': len(allm), 'note': 'sensitivity runs, not added to the evidence totals'})
+    bad, drift = classify(all_traces, verdicts)
     by_id = {t['id']: sc for t, sc in zip(all_traces, all_scs)}
     report_violations(out, bad, by_id)
     out.conformance['code_to_spec'] = {
         'traces': len(all_traces), 'design_variant': variant, 'rejected_by_monitor': len(bad),
         'explained_step_by_step': len(all_traces) - len(drift) - len(bad),
+        'rejected_yet_explained_by_this_variant': sum(1 for (t, _c, _a) in bad if t.get('conf')),
         'drift_without_rejection': len(drift),
         'first_drift': [{'at': a, 'event': t['ev'][a - 1] if 0 < a <= len(t['ev']) else None,
                          'schedule': t['detail']['schedule']} for (t, a) in drift[:2]]}
@@ -1336,44 +1579,35 @@ def main(tier, seed, replay=None):
         out.samples.append({'rejected': clause, 'users': by_id[t['id']]['users'],
                             'events': [e for e in t['ev'][max(0, at - 12):at] if e['e'] != 'step']})
 
-    # 4b. sensitivity: the mutants' traces and corrupted traces judged by the monitor (one TLC round)
+    # 4c. sensitivity verdicts
+    cbad, cdrift = classify(ctraces, vr['ctrl'][0])
+    out.tlc_runs.append({'config': 'TRACE_ParamProto_fixed.cfg (control: emulated repairs)', 'states': vr['ctrl'][1]['states'],
+                         'transitions': vr['ctrl'][1]['transitions'], 'wall_s': round(vr['ctrl'][1]['wall_s'], 2),
+                         'traces': len(ctraces), 'note': 'control runs, not added to the evidence totals'})
+    out.sensitivity['control:emulated-repairs'] = (
+        '%d traces of the code with both proposed repairs emulated in memory: %d rejected by the monitor, %d not explained '
+        'by the design spec with Bug = "none"' % (len(ctraces), len(cbad), len(cdrift)))
+    if os.environ.get('VERIF_DEBUG'):
+        print('[C04]', out.sensitivity['control:emulated-repairs'],
+              [(c, a, t['ev'][max(0, a - 3):a]) for (t, c, a) in cbad[:2]], [(a, t['ev'][max(0, a - 3):a + 1]) for (t, a) in cdrift[:2]], flush=True)
+    if cbad:
+        raise common.MachineryError('the monitor rejects the emulated repaired code: %s' % sorted({c for (_t, c, _a) in cbad}))
     bad_ids = {b[0]['id'] for b in bad}
     msc_ids = {id(sc) for sc in msc}
     msc_failed = [t['id'] for t, sc in zip(all_traces, all_scs) if id(sc) in msc_ids and t['id'] in bad_ids]
     if msc_failed:
         out.extra['sensitivity_scenarios_failing_unmutated'] = len(msc_failed)
-    sub = msc
-    good = [t for t in all_traces if t['id'] not in bad_ids]
-    corrupt = []
-    t0 = copy.deepcopy(next(t for t in good if any(e['e'] == 'cb' for e in t['ev'])))
-    t0['ev'].pop(next(i for i, e in enumerate(t0['ev']) if e['e'] == 'cb'))
-    corrupt.append(('drop-reply-callback-event', t0))
-    t1 = copy.deepcopy(next(t for t in good if len({json.dumps(e['data']) for e in t['ev'] if e['e'] == 'tx'}) >= 2))
-    ix = [i for i, e in enumerate(t1['ev']) if e['e'] == 'tx']
-    j = next(k for k in ix[1:] if t1['ev'][k]['data'] != t1['ev'][ix[0]]['data'])
-    t1['ev'][ix[0]], t1['ev'][j] = t1['ev'][j], t1['ev'][ix[0]]
-    corrupt.append(('swap-two-wire-packets', t1))
-    t2 = copy.deepcopy(next(t for t in good if any(e['e'] == 'upd' for e in t['ev'])))
-    e2 = next(e for e in t2['ev'] if e['e'] == 'upd')
-    e2['arg'] = {'k': 'int', 'neg': False, 'mag': [1, 2, 3, 4, 5, 6, 7, 8, 9]}
-    corrupt.append(('change-callback-value', t2))
-    t3 = copy.deepcopy(next(t for t in good if any(e['e'] == 'step' and e['a'] == 'UpdLock' for e in t['ev'])))
-    t3['ev'].pop([i for i, e in enumerate(t3['ev']) if e['e'] == 'step' and e['a'] == 'UpdLock'][0])
-    corrupt.append(('drop-one-step-marker(conformance)', t3))
-    o2 = common.Outcome('C04', tier, seed)
-    allm = mtraces + [c[1] for c in corrupt]
-    mbad, mdrift = judge(o2, allm, 'mutants + corrupted', trace_cfg)
-    out.tlc_runs.append(dict(o2.tlc_runs[-1], note='sensitivity runs (mutated code / corrupted traces), not counted as evidence'))
+    mbad, mdrift = classify(allm, vr['sens'][0])
     bad_by_id = {t['id']: c for (t, c, _a) in mbad}
     drift_ids = {t['id'] for (t, _a) in mdrift}
     for mi, name in enumerate(mnames):
-        ids = range(mi * len(sub) + 1, (mi + 1) * len(sub) + 1)
+        ids = range(mi * len(msc) + 1, (mi + 1) * len(msc) + 1)
         cl = {}
         for i in ids:
             if i in bad_by_id:
                 cl[bad_by_id[i]] = cl.get(bad_by_id[i], 0) + 1
         n = sum(cl.values())
-        out.sensitivity['mutant:' + name] = '%d of %d traces rejected %s' % (n, len(sub), sorted(cl.items()))
+        out.sensitivity['mutant:' + name] = '%d of %d traces rejected %s' % (n, len(msc), sorted(cl.items()))
         if os.environ.get('VERIF_DEBUG'):
             print('[C04] mutant', name, out.sensitivity['mutant:' + name], flush=True)
         if n == 0:
@@ -1384,5 +1618,4 @@ def main(tier, seed, replay=None):
         out.sensitivity['binding:' + name] = ('rejected (%s)' % how) if how else 'ACCEPTED'
         if not how:
             raise common.MachineryError('trace spec accepted corrupted trace %s' % name)
-    lap('corrupted traces')
     return out.finish()
